@@ -215,7 +215,7 @@ def text_boundaries(rng, n):
     internal entities - none of which ends a text node - and by comments / PIs / elements, which do."""
     out = []
     lengths = [0, 1, 2, 15, 16, 17, 31, 32, 33, 63, 64, 65, 99, 100, 101, 109, 127, 128, 129, 255, 256, 257, 511, 512, 513, 1023, 1024, 1025, 4095, 4096, 4097, 16383, 16385, 70000]
-    glue_same = ["&amp;", "&lt;", "&#65;", "&#x10400;", "<![CDATA[<c>]]>", "&ent;", "<![CDATA[]]>", "&long;", "\n", "\r\n"]
+    glue_same = ["&amp;", "&lt;", "&#65;", "&#x263A;", "<![CDATA[<c>]]>", "&ent;", "<![CDATA[]]>", "&long;", "\n", "\r\n"]
     glue_split = ["<!--c-->", "<?p d?>", "<i/>"]
     for k in range(n):
         els = []
